@@ -36,6 +36,8 @@ _pickle.load, _pickle.loads = _wrap(_pickle.load), _wrap(_pickle.loads)
 def audit(ev, args):
     if ev == "pickle.find_class" and CUR.get("armed"):
         RESOLVED.append(tuple(args[-2:]))
+    elif ev == "import" and CUR.get("armed") and args and str(args[0]).split(".")[0] == "verif_pkg":
+        RESOLVED.append(("import", str(args[0])))       # a module named in the pickle is being imported
     elif ev == "open" and CUR.get("json") and args and args[0] == CUR["json"]:
         flip()          # end of the analysis: the report file is being opened
 
@@ -83,7 +85,15 @@ FAM = {
     "underflow": [b"cverif_sink\nhit\n(S'A'\ntR00.", b"0."],
     "nomemo": [b"cverif_sink\nhit\n(S'A'\ntRg7\n.", b"h\x05."],
     "persid": [b"cverif_sink\nhit\n(S'A'\ntRPpid\n."],
+    # a global of a sub-module of a package that is importable but not imported yet (importing it is observable)
+    "pkgsub": [b"cverif_pkg.sub\nthing\n)R.", b"\x80\x04\x8c\rverif_pkg.sub\x8c\x05thing\x93)R.", b"(iverif_pkg.sub\nthing\n."],
 }
+
+
+def purge():
+    """forget the observable package, so that importing it (again) during the armed call is an event"""
+    for m in [k for k in sys.modules if k.split(".")[0] == "verif_pkg"]:
+        del sys.modules[m]
 
 
 class Flip(io.BytesIO):
@@ -153,6 +163,7 @@ def run_case(c, idx, tmp):
     src = a if c["kind"] == "bytes" else (Flip(a) if c["kind"] == "seekable" else NoSeek(a))
     CUR["stream"] = None if c["kind"] == "bytes" else src
     CUR["json"] = os.path.join(tmp, f"rep{idx}.json") if c["arm"] == "loader_json" else None
+    purge()
     del verif_sink.calls[:]
     del RESOLVED[:]
     CUR["armed"] = True
@@ -190,7 +201,7 @@ def run_case(c, idx, tmp):
         reset()
     calls = [x for x in verif_sink.calls if x[0] == "hit"]
     return {"arm": c["arm"], "kind": c["kind"], "t": c["t"], "fam": c["fam"], "v": v, "out": out, "info": info,
-            "resolved": len(RESOLVED), "ranA": sum(1 for x in calls if x[1] == ("A",)), "ranB": sum(1 for x in calls if x[1] == ("B",)),
+            "resolved": len(RESOLVED) + sum(1 for x in verif_sink.calls if x[0].endswith("-imported")), "ranA": sum(1 for x in calls if x[1] == ("A",)), "ranB": sum(1 for x in calls if x[1] == ("B",)),
             "eq_stock": bool(out == "returned" and dg(rc(res)) == stock), "hex": a.hex()[:120],
             "exc": locals().get("exc", "")}
 
